@@ -52,7 +52,15 @@ def run_batt(s, battery, cutoff, pfunc, dfunc, cid, fail_at=None, ref=True, max_
     """fail_at = ("probe"|"deplete"|"solve", k): the k-th such call raises"""
     from sysloss.system import System
     g = s._g
-    idx = s._get_index(battery) if isinstance(battery, str) else -1
+    # the battery is a component name or a rail name; resolved HERE from the registries (not with the library's own helper)
+    idx = -1
+    if isinstance(battery, str) and battery != "":
+        if battery in g.attrs["nodes"]:
+            idx = g.attrs["nodes"][battery]
+        else:
+            owners = [n for n, r in g.attrs["rails"].items() if r == battery]
+            if owners:
+                idx = g.attrs["nodes"][owners[0]]
     known = idx != -1
     is_source = known and type(g[idx]).__name__ == "Source"
     ph = [{"name": k, "dur": cell(v)} for k, v in g.attrs["phases"].items()]
